@@ -313,6 +313,7 @@ func checkC08(c *Ctx) {
 	mk("trunc", c.Pick(2, 6), func(j *c08Job) { j.Files = files; j.Stride = c.Pick(5, 1) })
 	mk("mutate", c.Pick(2, 8), func(j *c08Job) { j.Files = files; j.N = c.Pick(1, 4); j.Stride = c.Pick(4, 1) })
 	mk("bytes", 2, func(j *c08Job) {})
+	mk("layout", c.Pick(2, 6), func(j *c08Job) { j.N = c.Pick(0, 300) })
 	mk("deep", c.Pick(2, 4), func(j *c08Job) {
 		if c.Thorough() {
 			j.Depths = []int{10, 100, 1000, 3000}
@@ -346,7 +347,7 @@ func checkC08(c *Ctx) {
 			shards = par
 		}
 		for s := 0; s < shards; s++ {
-			genJobs = append(genJobs, &c08Job{Kind: "gen", GenFile: g.file, Shard: s, NShards: shards, Seed: c.Seed,
+			genJobs = append(genJobs, &c08Job{Kind: "gen", GenFile: g.file, Shard: s, NShards: shards, Seed: c.Seed, Wide: g.sp.name == "full",
 				Out: filepath.Join(scratch, fmt.Sprintf("gen-%s-%d", g.sp.name, s))})
 		}
 		expectGen += g.n
